@@ -52,6 +52,18 @@ Theorem C16_unknown_ignored : forall n l, ~ In n doc_names ->
 Proof. exact unknown_ignored. Qed.
 Print Assumptions C16_unknown_ignored.
 
+(* ... with a warning: the setter warns about exactly the requested names that are not documented flag names
+   (one warning per occurrence), and about nothing when every requested name is documented. *)
+Theorem C16_unknown_warned : forall a n,
+  In n (unknown_names flag_names a) <-> In n (selection_to_list a doc_names) /\ ~ In n doc_names.
+Proof. exact unknown_warned. Qed.
+Print Assumptions C16_unknown_warned.
+
+Theorem C16_no_warning_iff_all_documented : forall a,
+  unknown_names flag_names a = [] <-> forall n, In n (selection_to_list a doc_names) -> In n doc_names.
+Proof. exact no_warning_iff. Qed.
+Print Assumptions C16_no_warning_iff_all_documented.
+
 (* boolean flag = (raw AND mask) non-zero = some selected bit is set in the raw byte; all 256 x 256 bytes. *)
 Theorem C16_flags_bool_spec : forall raw mask, 0 <= raw < 256 -> 0 <= mask < 256 ->
   flag_bool raw mask = existsb (fun i => Z.testbit raw i && Z.testbit mask i) [0;1;2;3;4;5;6;7].
